@@ -47,7 +47,10 @@ def mod(name):
 def dec(v):
     if isinstance(v, dict):
         if "$A" in v:
-            return Angle(v["$A"])
+            # Angle(-0.0) and Angle.set(-0.0) may keep different zeros; the reuse relation compares a
+            # constructed object with a re-loaded one bit for bit, so Angles are entered with +0.0
+            # (the sign of a zero angle is C03's and C04's subject)
+            return Angle(v["$A"] + 0.0 if v["$A"] == 0 else v["$A"])
         if "$E" in v:
             return Epoch(v["$E"])
         if "$T" in v:
@@ -67,7 +70,10 @@ def dec(v):
             cls = {"Angle": Angle, "Epoch": Epoch, "Interpolation": Interpolation,
                    "CurveFitting": CurveFitting, "Earth": Earth, "Minor": Minor,
                    "Ellipsoid": Ellipsoid, "Sun": mod("Sun").Sun}[v["$o"]]
-            return cls(*[dec(x) for x in v["a"]])
+            a = [dec(x) for x in v["a"]]
+            if v["$o"] == "Angle":
+                a = [x + 0.0 if isinstance(x, float) and x == 0 else x for x in a]
+            return cls(*a)
         return {k: dec(x) for k, x in v.items()}
     if isinstance(v, list):
         return [dec(x) for x in v]
